@@ -112,6 +112,8 @@ class CallMixin:
             return [(st, PyC(d))]
         # SMT-level value
         v = base
+        if name == "__dict__" and isinstance(v, Val):
+            return [(st, Val(f"({self.declare_fun('obj_vars', ['V'], 'V')} {asV(v)})", kind="dict", origin=(f"{v.origin}.__dict__" if v.origin else None)))]
         if v.kind in ("list", "dict", "str", "set", "tuple") and v.cls is None:
             return [(st, BM(v, name))]
         if v.cls is not None:
